@@ -138,6 +138,7 @@ def _job(args):
                                     f"stream incomplete: {n} judged of {nreq} requests; harness exit {r1.returncode} {r1.stderr[-200:]!r}; "
                                     f"driver exit {r2.returncode} {r2.stderr[-200:]!r}; seed {seed}", batch=[]))
     nt = set()
+    per_sig = collections.Counter()
     for i in range(n):
         l, v = lines[i], model_lines[i]
         t = l.split(" ")
@@ -153,9 +154,13 @@ def _job(args):
                 if len(res["samples"]) < 2 and len(nt) % 499 == 1:
                     res["samples"].append(l + " -> " + impl_lines[i])
         if tag in ("BAD", "SPEC", "bad-request"):
-            if len(res["findings"]) < 300:
-                res["findings"].append(dict(kind={"BAD": "model-disagree", "SPEC": "oracle-spec"}.get(tag, "bad-request"), config=cname,
-                                            disable=disable, line=l, impl=impl_lines[i], text=v, batch=batch_around(lines, i + 1)))
+            f = dict(kind={"BAD": "model-disagree", "SPEC": "oracle-spec"}.get(tag, "bad-request"), config=cname,
+                     disable=disable, line=l, impl=impl_lines[i], text=v, batch=[])
+            sig = signature(f)
+            per_sig[sig] += 1
+            if per_sig[sig] <= 12:          # a frequent family must not crowd out a rare one
+                f["batch"] = batch_around(lines, i + 1)
+                res["findings"].append(f)
     res["nontrivial"] = len(nt)
     shutil.rmtree(d, ignore_errors=True)
     return res
@@ -224,9 +229,11 @@ def run_float(ctx, nbatches=None, nstreams=None):
         "also within one step of the interval spanned by those evaluations (okh).  Single colour channels are never perturbed alone: that "
         "would turn an exactly grey colour into a saturated one and accept a wrong set_sat on greys.  float_verdict_histogram counts how "
         "often okp/okh were needed (quick tier, unchanged tree: never; thorough: a handful of COLOR_DODGE cases with sa-s << sa)",
-        "float_*: COLOR_DODGE, COLOR_BURN, SOFT_LIGHT and HSL_* on operands that are not premultiplied colours: allowance 2^-8 when every "
-        "colour is at most 4x its alpha, not judged (verdict skip, counted) beyond that -- the library's binary32 result is dominated by "
-        "cancellation there; the property speaks of premultiplied inputs",
+        "float_*: not judged (verdict skip, counted in float_verdict_histogram, about 5%): COLOR_DODGE, COLOR_BURN, SOFT_LIGHT and HSL_* "
+        "on operands that are not premultiplied colours in [0,1] as the combiner sees them (the library's binary32 result is dominated "
+        "by cancellation there; the property speaks of premultiplied inputs), and HSL_HUE / HSL_SATURATION when the colour whose hue "
+        "is kept is almost but not exactly grey (0 < Cmax-Cmin < Cmax/1024: set_sat amplifies rounding noise); exactly grey colours "
+        "are judged; every other operator is judged on all operands, super-luminescent ones included",
         "float_*: the Spec oracle (Pixman.Spec.PdfBlend: Render factor table, PDF 32000 blend functions, composited per 11.3.6) is "
         "evaluated only for operands in [0,1] and, for the PDF modes, premultiplied; HSL with a component-alpha mask is outside the Spec "
         "(the library deliberately leaves the destination unchanged; the model mirrors that)",
